@@ -106,10 +106,17 @@ impl Powers {
     pub fn insert(&mut self, unit: Unit, power: i32) {
         match self.powers.entry(unit) {
             btree_map::Entry::Vacant(e) => {
-                e.insert(power);
+                if power != 0 {
+                    e.insert(power);
+                }
             }
             btree_map::Entry::Occupied(mut e) => {
                 *e.get_mut() += power;
+
+                // A unit which cancels out is no longer part of the powers.
+                if *e.get() == 0 {
+                    e.remove();
+                }
             }
         }
     }
